@@ -147,6 +147,7 @@ def run_C16(ctx, R):
 
 def run_C17(ctx, R):
     from .rules import tab, lst, out
+    _scoped(ctx, R, tab.tab20, C17_ENTRIES, 0)
     _scoped(ctx, R, out.out7, C17_ENTRIES, 6)
     _per_config(ctx, R, tab.tab9)
     _scoped(ctx, R, out.out5, C17_ENTRIES, 3)
@@ -157,6 +158,7 @@ def run_C17(ctx, R):
 
 def run_C18(ctx, R):
     from .rules import tab, lst
+    _scoped(ctx, R, tab.tab20, C18_ENTRIES, 0)
     _scoped(ctx, R, tab.tab11, C18_ENTRIES, 15)
     _scoped(ctx, R, lst.lst1, C18_ENTRIES, 3)
     _per_config(ctx, R, lst.lst5)
@@ -164,6 +166,7 @@ def run_C18(ctx, R):
 
 def run_C19(ctx, R):
     from .rules import tab, lst
+    _scoped(ctx, R, tab.tab20, C19_ENTRIES | C17_ENTRIES | C18_ENTRIES, 0)
     _per_config(ctx, R, lst.lst1)
     _per_config(ctx, R, lst.lst5)
     _scoped(ctx, R, tab.tab11, C19_ENTRIES, 4)
@@ -214,6 +217,7 @@ def run_C13(ctx, R):
     _per_config(ctx, R, minify_out)
     _per_config(ctx, R, minify_loops)
     _per_config(ctx, R, tab.tab13)
+    _per_config(ctx, R, tab.tab19)
 
 
 def _only_functions(rule, names, floor_rule, floor):
@@ -314,6 +318,8 @@ def run_C05(ctx, R):
     _per_config(ctx, R, outbuf.tab5bc)
     _per_config(ctx, R, outbuf.tab16)
     _per_config(ctx, R, outbuf.print_literals)
+    from .rules import outsym
+    _per_config(ctx, R, outsym.out23)
 
 
 def run_C02(ctx, R):
@@ -324,6 +330,7 @@ def run_C02(ctx, R):
     _per_config(ctx, R, parse.tab6)
     _per_config(ctx, R, _only_functions(parse.tab7, {'parse_number'}, 'TAB7', 1))
     _per_config(ctx, R, parse.c02_structure)
+    _per_config(ctx, R, parse.tab21)
     _per_config(ctx, R, _only_functions(lst.lst1, {'parse_array', 'parse_object'}, 'LST1', 2))
     _per_config(ctx, R, parse.tab1_depth_balance)
 
@@ -337,6 +344,7 @@ def run_C03(ctx, R):
     _per_config(ctx, R, _only_functions(tab.tab8, PARSE_FNS, 'TAB8', 6))
     _per_config(ctx, R, parse.tab4)
     _per_config(ctx, R, parse.c03_structure)
+    _per_config(ctx, R, parse.tab21)
 
 
 def run_C07(ctx, R):
@@ -348,6 +356,7 @@ def run_C07(ctx, R):
     _per_config(ctx, R, own.verify_summaries)
     _per_config(ctx, R, tree.tab14)
     _per_config(ctx, R, own.ref_constructors)
+    _per_config(ctx, R, own.own8)
 
 
 def run_C08(ctx, R):
@@ -384,7 +393,9 @@ PROPERTIES = {
             "the masked kind, covers all eight kinds and refuses anything else. TAB5b: every control byte goes to the switch "
             "whose default arm writes \\u00XX; quote and backslash are escaped. TAB16: print_number (and parse_number) "
             "substitute the locale's decimal point. LIT: the literals written are exactly null, false, true with requests of "
-            "their length plus terminator.",
+            "their length plus terminator. OUT2/OUT3: every token is written inside its request, the text handed back is "
+            "zero-terminated at its end only (no terminator written by sprintf inside the escaping loop survives), and the offset "
+            "bookkeeping matches what was written, so tokens are not overwritten or dropped.",
         'not_decided': ['acceptance by an independent strict parser', 'non-finite numbers print as null (a value predicate)',
                         'integer formatting (%d arm condition is numeric)'],
     },
@@ -548,8 +559,9 @@ PROPERTIES = {
             "minify_string 1) are inferred and checked at the three call sites. OUT6: the write cursor never overtakes "
             "the read cursor (lag >= 0 on every path, callee net lag >= 0), every store lands on a byte already read. "
             "OUT5: no gap in the output. BND6: each loop advances the read cursor. TAB13: the string scanner consumes "
-            "the byte after a backslash whatever it is.",
-        'not_decided': ['value preservation and idempotence as such', 'completeness of whitespace/comment removal'],
+            "the byte after a backslash whatever it is. TAB19: each comment skipper steps over its opener, recognises its closer at "
+            "the cursor (bytes 0..len-1 against '*/' resp. newline) and consumes exactly the closer.",
+        'not_decided': ['value preservation and idempotence as such', 'completeness of whitespace removal'],
     },
     'C14': {
         'run': run_C14,
